@@ -98,6 +98,8 @@ def lex_operand(s: "Scanner") -> None:
 
     if s.accept(","):
         lex_opcode_index(s)
+        # blanks between the inner index register and the closing bracket: `(0x10,s ),y`
+        s.ignore_run(" ")
 
     p = s.peek()
 
